@@ -13,7 +13,7 @@ use std::str::FromStr;
 
 pub fn meta() -> Meta {
     Meta {
-        rule: "events = (a) for one epoch in any of the nine scales (calendar years -30000..30000, nine tenths of them in 1..9999): Display -> Epoch::from_str, Formatter(ISO8601) -> from_str, to_gregorian_str(own) -> from_gregorian_str, serde_json to_string -> from_str, and for UTC epochs to_rfc3339 -> from_str; (b) harness-built ISO 8601 / RFC 3339 texts (M-TEXT) with k in 0..9 fractional digits, 'T' or ' ' separator, none | Z | +-hh:mm offset (all of -23:59..+23:59 enumerated) and optional scale suffix -> from_str / from_gregorian_str; (c) numeric forms `JD|MJD|SEC x SCALE` in the uniform scales and UTC. Expected: (a) identical scale and parts; (b) parts == count of the fields in the scale (UTC when none) minus the offset, exactly; (c) |parsed - denoted| <= 1.5 ulp of the f64 magnitude in that unit + 1 ns, where JD/MJD count days from their origin on the scale's own calendar and SEC counts seconds from the scale's zero. Generation: epochs as C09 (lattice incl. leap seconds, random ns instants), all 2879 offsets x random base, all k, numeric values over +-10000 y and within one unit of zero / of the form's origin, both signs. Non-trivial = non-zero fractional part, offset present, scale other than UTC, year < 1900 or > 3408, numeric form in a GNSS scale; distinct = distinct text hashes among those. Round 6: harness-built texts with every decoration (offset of either sign, Z, fraction, scale suffix) for years -30000..0 and 10000..30000.",
+        rule: "events = (a) for one epoch in any of the nine scales (calendar years -30000..30000, nine tenths of them in 1..9999): Display -> Epoch::from_str, Formatter(ISO8601) -> from_str, to_gregorian_str(own) -> from_gregorian_str, serde_json to_string -> from_str, and for UTC epochs to_rfc3339 -> from_str; (b) harness-built ISO 8601 / RFC 3339 texts (M-TEXT) with k in 0..9 fractional digits, 'T' or ' ' separator, none | Z | +-hh:mm offset (all of -23:59..+23:59 enumerated) and optional scale suffix -> from_str / from_gregorian_str; (c) numeric forms `JD|MJD|SEC x SCALE` in the uniform scales and UTC. Expected: (a) identical scale and parts; (b) parts == count of the fields in the scale (UTC when none) minus the offset, exactly; (c) |parsed - denoted| <= 1.5 ulp of the f64 magnitude in that unit + 1 ns, where JD/MJD count days from their origin on the scale's own calendar and SEC counts seconds from the scale's zero. Generation: epochs as C09 (lattice incl. leap seconds, random ns instants), all 2879 offsets x random base, all k, numeric values over +-10000 y and within one unit of zero / of the form's origin, both signs. Non-trivial = non-zero fractional part, offset present, scale other than UTC, year < 1900 or > 3408, numeric form in a GNSS scale; distinct = distinct text hashes among those. Round 6: harness-built texts with every decoration (offset of either sign, Z, fraction, scale suffix) for years -30000..0 and 10000..30000. Rounds 7-9: numeric forms with the number written +x, {:e}, {:E}, with leading zeros: Err or the denoted instant.",
         assumptions: &["M-TEXT grammar as documented (rustdoc of from_gregorian_str / from_str)", "JD in ET/TDB excluded (documented approximate)"],
         mandatory: &["rt/display", "rt/iso-formatter", "rt/gregorian-str", "rt/serde", "rt/rfc3339", "text/offset", "text/zulu", "text/frac-0", "text/frac-9", "text/frac-1..8", "text/scale-suffix", "text/space-separator", "num/JD", "num/MJD", "num/SEC", "num/gnss-scale", "num/negative-fraction", "rt/year-below-1", "rt/year-above-9999"],
         thorough_scale: 40,
